@@ -281,15 +281,28 @@ CHECK = {
         "spurious wake-ups and timer firings at any time, a timed-out waiter may or may not have consumed a notification",
         "trace recording: the quandary_verif hooks in src/thread.rs (events pushed to a global log while the section's "
         "mutex is held), harness/src/bin/impl_c29.rs (scenario driver, event folding), ocaml/run_c29.ml, checks/c29.py",
-        "not verified: the OS scheduler/futex implementation, thread spawn failure (modelled, never observed), "
-        "ThreadPool::shut_down on a pool already removed from its group (Slab::remove panics; outside the model)",
+        "not verified: the OS scheduler/futex implementation; thread spawn failure (modelled, never observed in the runs); "
+        "groups with several pools, start_oneshot/start_respawnable threads that are not pool workers, tasks that submit tasks",
     ],
     "assumptions": ["tasks terminate; a panicking task is a terminating task",
-                    "one ThreadGroup with one ThreadPool; ThreadPool::shut_down is not called after the pool was removed from the group"],
+                    "one ThreadGroup with one ThreadPool, created by start_pool before any other call",
+                    "the progress/measure theorems speak about steps that are not spurious wake-ups or timer firings"],
 }
 
 MANIFEST = {
-    "level_text": "",
-    "level_note": "",
+    "level_text": ("Coq theorems (no axioms) about a labelled transition system of one ThreadGroup + one ThreadPool with unbounded "
+                   "numbers of workers, submitters and tasks, over ALL interleavings, notify_one choices, spurious wake-ups and "
+                   "timer firings (inductive invariant): every accepted task is in exactly one of queued/running/done and is never "
+                   "started twice; when await_shutdown has returned all accepted tasks are done and no group thread is live; "
+                   "submissions after the pool flag is set are refused and group shutdown sets it; no usize underflow; no deadlock "
+                   "after shutdown was requested and a well-founded measure decreasing on every non-environment step. The old worker "
+                   "loop is refuted by a witness schedule. The real code is tied to the LTS by trace validation: ~3500 (quick) "
+                   "randomized runs of the hooked thread.rs (delays forced into the critical sections) whose linearised event "
+                   "traces must all be accepted by the extracted LTS (validator proved sound), plus end-to-end counters."),
+    "level_note": ("Proof of the model + trace refinement on sampled runs; PARTIAL with respect to the runtime: std Mutex/Condvar "
+                   "semantics are the model's abstraction (atomic critical sections, wait sets, any-waiter notify_one), the OS "
+                   "scheduler, futexes and thread creation are not verified, and interleavings of the real code are sampled, not "
+                   "enumerated. Trusted: Coq kernel, extraction, the quandary_verif hooks and the scenario driver."),
     "technique": "machine-checked proof in Coq (inductive invariant over all interleavings of an LTS) + trace validation of the running implementation against the extracted LTS",
+    "design_ref": "DESIGN.md ### C29",
 }
